@@ -202,7 +202,7 @@ fn km_cases(max_len: usize) -> Vec<KmCase> {
     // tolerances below and above 1: tolerance and tolerance^2 straddle many observed shifts
     let tolerances = vec![1e-4, 0.5, 1.0, 2.0, 3.0, 100.0];
     let mut out = Vec::new();
-    for metric in ["L2", "L1", "Linf"] {
+    for metric in ["L2", "L1", "Linf", "Lp3"] {
     for (name, pool, inits) in &pools {
         for k in 1..=3usize {
             for ic in inits {
@@ -277,7 +277,7 @@ fn km_cases(max_len: usize) -> Vec<KmCase> {
 
 /// every assignment of the five layouts to the batches of a history of length l
 fn layout_assignments(l: usize) -> Vec<Vec<usize>> {
-    en::sequences(l, 5)
+    en::sequences(l, harden::NLAY)
 }
 
 fn harden_cases(thorough: bool) -> Vec<HCase> {
@@ -314,7 +314,7 @@ fn harden_cases(thorough: bool) -> Vec<HCase> {
                         if fl == "f32" && !*with_f32 {
                             continue;
                         }
-                        out.push(HCase { sub: "nb".into(), float: fl.into(), model: model.to_string(), batches: bx.clone(), labels: by.clone(), rows: vec![0; comp.len()], layouts: la.clone(), hyper: vec![*sm], init: vec![], queries: q.clone() });
+                        out.push(HCase { sub: "nb".into(), float: fl.into(), model: model.to_string(), batches: bx.clone(), labels: by.clone(), rows: vec![0; comp.len()], layouts: la.clone(), hyper: vec![*sm], init: vec![], queries: q.clone(), forms: vec![] });
                     }
                 }
             }
@@ -326,9 +326,9 @@ fn harden_cases(thorough: bool) -> Vec<HCase> {
         for rows in [vec![n], vec![1024, n - 1024], vec![1, n - 1]] {
             let bx: Vec<Vec<Vec<f64>>> = rows.iter().map(|_| d1x.clone()).collect();
             let by: Vec<Vec<usize>> = rows.iter().map(|_| d1y.clone()).collect();
-            for lay in 0..5usize {
+            for lay in 0..harden::NLAY {
                 for (model, sm) in [("gaussian", 0.0), ("gaussian", 1e-3), ("multinomial", 1.0)] {
-                    out.push(HCase { sub: "nb".into(), float: "f64".into(), model: model.into(), batches: bx.clone(), labels: by.clone(), rows: rows.clone(), layouts: vec![lay; rows.len()], hyper: vec![sm], init: vec![], queries: q2.clone() });
+                    out.push(HCase { sub: "nb".into(), float: "f64".into(), model: model.into(), batches: bx.clone(), labels: by.clone(), rows: rows.clone(), layouts: vec![lay; rows.len()], hyper: vec![sm], init: vec![], queries: q2.clone(), forms: vec![] });
                 }
             }
         }
@@ -359,6 +359,7 @@ fn harden_cases(thorough: bool) -> Vec<HCase> {
                             hyper: vec![k as f64, 0.5],
                             init: kinit[..k].to_vec(),
                             queries: kq.clone(),
+                            forms: vec![],
                         });
                     }
                 }
@@ -366,7 +367,7 @@ fn harden_cases(thorough: bool) -> Vec<HCase> {
         }
     }
     for &n in &big_ns {
-        for lay in 0..5usize {
+        for lay in 0..harden::NLAY {
             for k in [1usize, 2] {
                 for order in [vec![3usize, 1], vec![1, 3]] {
                     let rows: Vec<usize> = order.iter().map(|&b| if b == 3 { n } else { 0 }).collect();
@@ -381,6 +382,7 @@ fn harden_cases(thorough: bool) -> Vec<HCase> {
                         hyper: vec![k as f64, 0.5],
                         init: kinit[..k].to_vec(),
                         queries: kq.clone(),
+                            forms: vec![],
                     });
                 }
             }
@@ -416,6 +418,7 @@ fn harden_cases(thorough: bool) -> Vec<HCase> {
                             hyper: hy.clone(),
                             init: vec![],
                             queries: fq.clone(),
+                            forms: vec![],
                         });
                     }
                 }
@@ -423,7 +426,7 @@ fn harden_cases(thorough: bool) -> Vec<HCase> {
         }
     }
     for &n in &big_ns {
-        for lay in 0..5usize {
+        for lay in 0..harden::NLAY {
             for (hy, _) in &hypers[..2] {
                 // batch 4 (every row non-zero, so that no row of a large batch is gradient-neutral)
                 // is the one that is blown up to n rows
@@ -440,17 +443,84 @@ fn harden_cases(thorough: bool) -> Vec<HCase> {
                         hyper: hy.clone(),
                         init: vec![],
                         queries: fq.clone(),
+                            forms: vec![],
                     });
                 }
             }
         }
     }
+    // ---------------- k-means through every linfa-nn metric: feature counts, sub-unit scales ----------------
+    let gen = |i: usize, j: usize, scale: f64| -> f64 { ((((i * 7 + j * 3 + i * j) % 5) as f64) + en::jitter(i, j)) * scale };
+    for d in [1usize, 4, 5, 6, 7, 9] {
+        for scale in [1.0, 0.125] {
+            let row = |i: usize| -> Vec<f64> { (0..d).map(|j| gen(i, j, scale)).collect() };
+            let b0: Vec<Vec<f64>> = (0..4).map(row).collect();
+            let b1: Vec<Vec<f64>> = (4..7).map(row).collect();
+            let b2: Vec<Vec<f64>> = vec![row(7)];
+            let init: Vec<Vec<f64>> = vec![row(8), row(9)];
+            let qs: Vec<Vec<f64>> = (10..16).map(row).collect();
+            for (metric, fl) in [("L2", "f64"), ("L1", "f64"), ("Linf", "f64"), ("Lp3", "f64"), ("L2", "f32"), ("Linf", "f32")] {
+                if fl == "f32" && scale != 1.0 {
+                    continue;
+                }
+                for lay in 0..harden::NLAY {
+                    out.push(HCase {
+                        sub: "kmeans".into(),
+                        float: fl.into(),
+                        model: metric.into(),
+                        batches: vec![b0.clone(), b1.clone(), b2.clone()],
+                        labels: vec![],
+                        rows: vec![0; 3],
+                        layouts: vec![lay; 3],
+                        hyper: vec![2.0, 0.5 * scale],
+                        init: init.clone(),
+                        queries: qs.clone(),
+                        forms: vec![],
+                    });
+                }
+            }
+        }
+    }
+    // ---------------- core-crate routing: calling forms of fit / fit_with, target layouts, helpers ----------------
+    let flen = if thorough { 3 } else { 2 };
+    for (x, y, comps) in [
+        (&d1x, &d1y, vec![vec![8usize], vec![3, 5], vec![1, 2, 5]]),
+        (&d2x, &d2y, vec![vec![7usize], vec![2, 5], vec![1, 1, 5]]),
+    ] {
+        for comp in comps.iter().filter(|c| c.len() <= flen) {
+            let (bx, by) = split(x, y, comp);
+            for fa in en::sequences(comp.len(), harden::NFORMS) {
+                for (model, sm) in [("gaussian", 0.0), ("gaussian", 1e-3), ("multinomial", 1.0)] {
+                    out.push(HCase { sub: "core_nb".into(), float: "f64".into(), model: model.into(), batches: bx.clone(), labels: by.clone(), rows: vec![0; comp.len()], layouts: vec![], hyper: vec![sm], init: vec![], queries: vec![], forms: fa.clone() });
+                }
+            }
+        }
+    }
+    for len in 1..=2usize {
+        for seq in en::sequences(len, 4) {
+            for fa in en::sequences(len, harden::NFORMS) {
+                out.push(HCase {
+                    sub: "core_ftrl".into(),
+                    float: "f64".into(),
+                    model: "ftrl".into(),
+                    batches: seq.iter().map(|&b| fx[b].clone()).collect(),
+                    labels: seq.iter().map(|&b| fy[b].clone()).collect(),
+                    rows: vec![0; len],
+                    layouts: vec![],
+                    hyper: vec![0.5, 1.0, 0.5, 0.5],
+                    init: vec![],
+                    queries: vec![],
+                    forms: fa.clone(),
+                });
+            }
+        }
+    }
     // ---------------- builder history ----------------
-    out.push(HCase { sub: "builder".into(), float: "f64".into(), model: "kmeans".into(), batches: vec![kpool[1].clone(), kpool[3].clone()], labels: vec![], rows: vec![], layouts: vec![], hyper: vec![], init: vec![], queries: vec![] });
-    out.push(HCase { sub: "builder".into(), float: "f64".into(), model: "ftrl".into(), batches: vec![fx[2].clone(), fx[3].clone()], labels: vec![fy[2].clone(), fy[3].clone()], rows: vec![], layouts: vec![], hyper: vec![], init: vec![], queries: vec![] });
+    out.push(HCase { sub: "builder".into(), float: "f64".into(), model: "kmeans".into(), batches: vec![kpool[1].clone(), kpool[3].clone()], labels: vec![], rows: vec![], layouts: vec![], hyper: vec![], init: vec![], queries: vec![], forms: vec![] });
+    out.push(HCase { sub: "builder".into(), float: "f64".into(), model: "ftrl".into(), batches: vec![fx[2].clone(), fx[3].clone()], labels: vec![fy[2].clone(), fy[3].clone()], rows: vec![], layouts: vec![], hyper: vec![], init: vec![], queries: vec![], forms: vec![] });
     let (bx, by) = split(&d1x, &d1y, &[3, 5]);
-    out.push(HCase { sub: "builder".into(), float: "f64".into(), model: "gaussian_nb".into(), batches: bx.clone(), labels: by.clone(), rows: vec![], layouts: vec![], hyper: vec![], init: vec![], queries: vec![] });
-    out.push(HCase { sub: "builder".into(), float: "f64".into(), model: "multinomial_nb".into(), batches: bx, labels: by, rows: vec![], layouts: vec![], hyper: vec![], init: vec![], queries: vec![] });
+    out.push(HCase { sub: "builder".into(), float: "f64".into(), model: "gaussian_nb".into(), batches: bx.clone(), labels: by.clone(), rows: vec![], layouts: vec![], hyper: vec![], init: vec![], queries: vec![], forms: vec![] });
+    out.push(HCase { sub: "builder".into(), float: "f64".into(), model: "multinomial_nb".into(), batches: bx, labels: by, rows: vec![], layouts: vec![], hyper: vec![], init: vec![], queries: vec![], forms: vec![] });
     out
 }
 
@@ -543,7 +613,7 @@ fn main() {
          Naive Bayes: datasets = every multiset of n rows over the symbols (feature vector in {0,1,2,3}^p, label in {0,1,2}) for p=1 (n<=5 quick / n<=6 thorough) and p=2 (n<=3 / n<=4), fed in 1 / 3 row orders \
          (label-major, feature-major, riffle), x {gaussian var_smoothing 0, 1e-9, 1e-3; multinomial alpha 0, 0.5, 1}; per dataset EVERY composition of the rows into ordered non-empty batches \
          (prefix-sharing state graph: state = (rows consumed, sufficient statistics), transition = fit_with on the next s rows for every s; states with bit-identical statistics are merged). \
-         k-means: distance function in {L2Dist, L1Dist, LInfDist} x 4 pools (2-d lattice, 2-d generic position, 1-d, 3-d) of 4 tiny batches, every batch sequence of length <= 3 / 4, k in {1,2,3}, precomputed initial centroids (incl. duplicated ones) / seeded k-means++ / seeded random, \
+         k-means: distance function in {L2Dist, L1Dist, LInfDist, LpDist(3)} x 4 pools (2-d lattice, 2-d generic position, 1-d, 3-d) of 4 tiny batches, every batch sequence of length <= 3 / 4, k in {1,2,3}, precomputed initial centroids (incl. duplicated ones) / seeded k-means++ / seeded random, \
          tolerances {1e-4, 0.5, 1, 2, 3, 100}; plus a large-batch family: batches of 1024 / 1025 / 2500 / 4097 rows replicated from 4 distinct points (cyclic / block layout) combined with a 3-row batch in every sequence of length <= 2, k in {1,2}, precomputed / k-means++ / random init, L2 and L1. FTRL: pool of 4 batches (3 features), every sequence of length <= 3 / 4, alpha {0.005,0.5,1} x beta {0,1} x l1 {0,0.5,1} x l2 {0,0.5,1} x 3 initial z (two scripted, with |z| exactly on the l1 boundary, one as drawn by the crate's default generator). \
          non-trivial = the transition updates a non-empty previous model (a genuinely incremental step) or is a step of a fresh full-history replay.",
     );
@@ -558,6 +628,7 @@ fn main() {
     ctx.assume("oracle FTRL: from the previous (z, n) of the subject: w = 0 if |z| <= l1 else (sign(z) l1 - z)/((sqrt(n)+beta)/alpha + l2); p_i = sigmoid(clamp(x_i.w, +-35)) rounded to f32; g = sum_i (p_i - y_i) x_i; sigma = (sqrt(n+g^2) - sqrt(n))/alpha; z' = z + g - sigma w; n' = n + g^2; tolerance 1e-6 x (1 + magnitude of the operands); get_weights() exactly 0 wherever |z| <= l1 (exact comparison on the subject's own z), else the closed form to 1e-12; states whose reference weights are not finite (beta = 0, l2 = 0, n = 0, |z| > l1) are out of domain");
     ctx.assume("the initial z of FTRL is drawn by the subject from a generator supplied by the check that replays chosen dyadic values (rand 0.8 uniform f64 = (u64 >> 12) / 2^52); Ftrl::new is checked to produce exactly these values");
     ctx.assume("hardening families (harden.rs): each batch of a history is handed to fit_with in one of five memory layouts (standard, column-major owned, transposed view of a feature-major array, reversed-row view of a reversed copy, every-second-row view of a larger array with NaN filler rows), every assignment of layouts to the batches of histories of length <= 2 / 3 (<= 3 for naive Bayes); the model after every batch must equal the standard-layout replay within the tolerances above (counts exact), prediction inputs go through the same five layouts; replicated batches of 1025 (quick) / 1025 and 4097 (thorough) rows through the same reference oracles (1e-9 relative); f32 runs of naive Bayes, k-means and FTRL with f32 tolerances (statistics 1e-4 relative, centroids 1e-4, FTRL 1e-3 x operand magnitude, margins 1e-2) against the f64 reference evaluated on the f32-rounded inputs");
+    ctx.assume("cross-crate routing: k-means runs with every linfa-nn metric (L2, L1, Linf, Lp(3)) on generic-position points with 1, 4, 5, 6, 7, 9 features at scales 1 and 0.125 (tolerance 0.5 x scale) in six layouts incl. a reversed FEATURE axis; own reduced distance / matrix distance per metric as before. Core crate: every batch of a naive-Bayes / FTRL history is handed over in one of seven calling forms (plain; reversed target view; every-second-element target view with poison fillers; strided (n,1) 2-d target column + into_single_target; encoded labels + map_targets; foreign-label rows + with_labels (CountedTargets); column-major owned dataset + unchecked params through the ParamGuard blanket impl), every assignment of forms to the batches; the model must equal the plain-form replay (same tolerances), single batches also through Fit::fit; predict is called in every form (&Array2, ArrayView2, owned Array2, &DatasetBase, owned DatasetBase (records returned unchanged), predict_inplace, one-row views, for k-means also one observation) and must agree bit for bit");
     ctx.assume("builder history: every order of the setters of KMeansParams (n_runs, tolerance, max_n_iterations, init_method; 24 orders) and FtrlParams (alpha, beta, l1_ratio, l2_ratio, rng; 120 orders), each also after decoy writes of other values, plus the alternative constructors and decoy-then-real writes of the single naive-Bayes setter, must give the same published getters and a bit-identical two-batch model history as the canonical order");
     ctx.assume("VERIF_SEED does not influence what is explored");
 
@@ -625,7 +696,7 @@ fn main() {
     // ---------------- hardening families: layouts, sizes, f32, builder history ----------------
     let hc = harden_cases(ctx.thorough());
     ctx.extra("harden_cases_enumerated", json!(hc.len()));
-    for (k, sub, fl) in [("harden_cases_nb_f64", "nb", "f64"), ("harden_cases_nb_f32", "nb", "f32"), ("harden_cases_kmeans_f64", "kmeans", "f64"), ("harden_cases_kmeans_f32", "kmeans", "f32"), ("harden_cases_ftrl_f64", "ftrl", "f64"), ("harden_cases_ftrl_f32", "ftrl", "f32"), ("harden_cases_builder", "builder", "f64")] {
+    for (k, sub, fl) in [("harden_cases_nb_f64", "nb", "f64"), ("harden_cases_nb_f32", "nb", "f32"), ("harden_cases_kmeans_f64", "kmeans", "f64"), ("harden_cases_kmeans_f32", "kmeans", "f32"), ("harden_cases_ftrl_f64", "ftrl", "f64"), ("harden_cases_ftrl_f32", "ftrl", "f32"), ("harden_cases_builder", "builder", "f64"), ("harden_cases_core_nb_calling_forms", "core_nb", "f64"), ("harden_cases_core_ftrl_calling_forms", "core_ftrl", "f64")] {
         ctx.extra(k, json!(hc.iter().filter(|c| c.sub == sub && c.float == fl).count()));
     }
     ctx.extra("harden_cases_with_a_non_standard_layout", json!(hc.iter().filter(|c| c.layouts.iter().any(|l| *l != 0)).count()));
